@@ -372,7 +372,16 @@ class ExprMixin:
         if self._is_kind(a, "set") and self._is_kind(b, "set") and isinstance(op, ast.LtE):
             es = self.tenv.sort(a.pt.args[0])
             x = smt.Var(smt.fresh_name("e"), es)
-            return smt.Forall([(x.args[0], es)], smt.Implies(smt.Select(a.term, x), smt.Select(b.term, x)))
+            q = smt.Forall([(x.args[0], es)], smt.Implies(smt.Select(a.term, x), smt.Select(b.term, x)),
+                           patterns=((smt.Select(a.term, x),), (smt.Select(b.term, x),)))
+            if self.spec_mode:
+                return q
+            # name the quantified fact by a boolean: b => forall ...,  not b => a skolem witness violates it
+            bconst = self.ctx.fresh_const("subset", "Bool")
+            sk = self.ctx.fresh_const("sk", es)
+            st.assume(smt.Implies(bconst, q))
+            st.assume(smt.Implies(smt.Not(bconst), smt.And(smt.Select(a.term, sk), smt.Not(smt.Select(b.term, sk)))))
+            return bconst
         sym = {ast.Lt: "<", ast.LtE: "<=", ast.Gt: ">", ast.GtE: ">="}.get(type(op))
         if sym is None:
             raise Unsupported(f"comparison {type(op).__name__}")
@@ -393,12 +402,8 @@ class ExprMixin:
             if k == "map":
                 return smt.Select(ops.map_dom(coll), ops.term(item, coll.pt.args[0]))
             if k == "seq":
-                i = smt.Var(smt.fresh_name("i"), "Int")
                 it = ops.term(item, coll.pt.args[0])
-                return smt.Exists(
-                    [(i.args[0], "Int")],
-                    smt.And(smt.Le(smt.Int(0), i), smt.Lt(i, smt.SeqLen(coll.term)), smt.Eq(smt.SeqNth(coll.term, i), it)),
-                )
+                return ops.seq_mem(coll.term, it)
         raise Unsupported(f"membership in {coll!r}")
 
     # ------------------------------------------------------------------ attribute / subscript
